@@ -235,6 +235,7 @@ func (selector *CoinSelector) SortedSearch() ([]*Utxo, uint64, uint64) {
 			if lr >= selector.maxP {
 				if txscript.IsPayToScriptHash(u.ScriptPubkey) {
 					selection = selection[:len(selection)-1]
+					sum -= u.Value
 					continue
 				}
 				return nil, 0, 0
